@@ -139,9 +139,8 @@ pub enum Framing {
 /// What the reference server expects for one well-framed request
 #[derive(Clone, Debug, PartialEq, Eq)]
 pub struct Expect {
-    /// acceptable reply PDUs: empty = no reply; more than one entry only for a read that touches
-    /// several failing addresses with different exception codes (the property does not say which
-    /// one is reported)
+    /// acceptable reply PDUs: empty = no reply, otherwise exactly one (a reference server reads the
+    /// requested addresses in ascending order and reports the exception of the first one that fails)
     pub replies: Vec<Vec<u8>>,
     /// exact expected calls other than reads (authorization + writes), in order
     pub calls: Vec<Call>,
@@ -157,6 +156,10 @@ pub trait Policy {
 }
 
 pub struct RefServer {
+    /// true: a write-multiple request whose byte-count field disagrees with its data is invalid
+    /// (exception 03); false: the field is ignored. The property does not decide this, so an
+    /// implementation may do either (consistently) and the oracle accepts both readings
+    pub strict_byte_count: bool,
     pub framing: Framing,
     pub apps: BTreeMap<u8, App>,
     pub auth: Option<(Box<dyn Policy>, String)>,
@@ -173,7 +176,11 @@ impl RefServer {
             read_scope: None,
             class: class.to_string(),
         };
-        let req = match decode_request(pdu) {
+        let decoded = match decode_request(pdu) {
+            ReqDecode::Ok(_) if self.strict_byte_count && !byte_count_consistent(pdu) => ReqDecode::Invalid(pdu[0], "byte-count"),
+            x => x,
+        };
+        let req = match decoded {
             ReqDecode::Empty => return none("empty"),
             ReqDecode::UnknownFunction(fc) => {
                 return if configured {
@@ -269,7 +276,7 @@ impl RefServer {
                     match app.read_bit(table, a) {
                         Ok(v) => vals.push((a, v)),
                         Err(e) => {
-                            if !excs.contains(&e) {
+                            if excs.is_empty() {
                                 excs.push(e)
                             }
                         }
@@ -296,7 +303,7 @@ impl RefServer {
                     match app.read_reg(table, a) {
                         Ok(v) => vals.push((a, v)),
                         Err(e) => {
-                            if !excs.contains(&e) {
+                            if excs.is_empty() {
                                 excs.push(e)
                             }
                         }
